@@ -26,7 +26,19 @@ enum OpObj {
     Write(Pin<Box<a10::io::Write<'static, Vec<u8>>>>),
     SendZc(Pin<Box<a10::net::Send<'static, Vec<u8>>>>),
     MAccept(Pin<Box<a10::net::MultishotAccept<'static>>>),
+    Accept(Pin<Box<a10::net::Accept<'static, a10::net::NoAddress>>>),
+    PoolRead(Pin<Box<a10::io::Read<'static, a10::io::ReadBuf>>>),
+    PoolMRead(Pin<Box<a10::io::MultishotRead<'static>>>),
 }
+
+/// A resource handed to the caller by a result.
+#[allow(dead_code)]
+enum ResObj {
+    Fd(a10::AsyncFd),
+    Buf(a10::io::ReadBuf),
+}
+
+const BUF_SIZE: u32 = 1024;
 
 #[derive(Debug, Clone, PartialEq)]
 enum Ret {
@@ -49,6 +61,18 @@ impl Ret {
     }
 }
 
+fn fd_number(fd: &a10::AsyncFd) -> i64 {
+    use std::os::fd::AsRawFd;
+    match fd.as_fd() {
+        Some(f) => i64::from(f.as_raw_fd()),
+        // Direct descriptors do not expose their index; Debug prints it.
+        None => {
+            let s = format!("{fd:?}");
+            s.split("fd: ").nth(1).and_then(|r| r.split(',').next()).and_then(|n| n.trim().parse().ok()).unwrap_or(-1)
+        }
+    }
+}
+
 struct World {
     ring: Option<a10::Ring>,
     sq: Option<a10::SubmissionQueue>,
@@ -59,6 +83,15 @@ struct World {
     op_of: BTreeMap<u64, u64>, // address -> op id
     held: Vec<a10::AsyncFd>,
     kinds: BTreeMap<u64, String>,
+    /// Resources the caller owns, by result value.
+    owned: BTreeMap<i64, ResObj>,
+    track_res: bool,
+    direct: bool,
+    base_id: i32,
+    pool: Option<a10::io::ReadBufPool>,
+    pool_group: u16,
+    pool_base: u64,
+    nbufs: u16,
 }
 
 fn panic_message(p: Box<dyn std::any::Any + Send>) -> String {
@@ -72,7 +105,8 @@ fn panic_message(p: Box<dyn std::any::Any + Send>) -> String {
 }
 
 impl World {
-    fn new(kinds: &BTreeMap<u64, String>, sqn: u32, cqn: u32, sq_init: u32, cq_init: u32) -> World {
+    #[allow(clippy::too_many_arguments)]
+    fn new(kinds: &BTreeMap<u64, String>, sqn: u32, cqn: u32, sq_init: u32, cq_init: u32, track_res: bool, direct: bool, nbufs: u16) -> World {
         simk::reset();
         wakers::reset();
         events::clear();
@@ -82,17 +116,56 @@ impl World {
             k.plan.cq_init = cq_init;
         }
         alloc::begin();
-        let ring = alloc::tracked(|| {
-            a10::Ring::config()
-                .with_submission_queue_size(sqn)
-                .with_completion_queue_size(cqn)
-                .build()
+        let mut ring = alloc::tracked(|| {
+            let config = a10::Ring::config().with_submission_queue_size(sqn).with_completion_queue_size(cqn);
+            let config = if direct { config.with_direct_descriptors(2048) } else { config };
+            config.build()
         })
         .expect("building a ring on the simulated kernel");
         let sq = ring.sq();
         let rfd = *simk::kernel().rings.keys().next().unwrap();
         let fd = simk::kernel().alloc_fd();
-        let base = Box::into_raw(Box::new(unsafe { a10::AsyncFd::from_raw_fd(fd, sq.clone()) }));
+        let mut base_fd = unsafe { a10::AsyncFd::from_raw_fd(fd, sq.clone()) };
+        let mut base_id = fd;
+        if direct {
+            // Turn the listener into a direct descriptor (slot 2000) through the
+            // crate's own conversion operation.
+            let waker = wakers::waker(15);
+            let mut ctx = Context::from_waker(&waker);
+            let dfd = {
+                let mut conv = Box::pin(base_fd.to_direct_descriptor());
+                assert!(conv.as_mut().poll(&mut ctx).is_pending());
+                ring.poll(Some(Duration::ZERO)).expect("poll");
+                {
+                    let mut k = simk::kernel();
+                    let req = k.rings[&rfd].inflight[0].clone();
+                    unsafe { (req.sqe.addr() as *mut i32).write(2000) };
+                    k.rings.get_mut(&rfd).unwrap().files.as_mut().unwrap()[2000] = true;
+                    k.complete(rfd, req.sqe.user_data(), 1, 0);
+                }
+                ring.poll(Some(Duration::ZERO)).expect("poll");
+                match conv.as_mut().poll(&mut ctx) {
+                    Poll::Ready(Ok(dfd)) => dfd,
+                    other => panic!("to_direct_descriptor on the simulated kernel: {other:?}"),
+                }
+            };
+            drop(base_fd); // queues a close of the regular descriptor
+            ring.poll(Some(Duration::ZERO)).expect("poll");
+            base_fd = dfd;
+            base_id = 2000;
+            wakers::reset();
+        }
+        let base = Box::into_raw(Box::new(base_fd));
+        events::clear();
+        let (mut pool, mut pool_group, mut pool_base) = (None, 0u16, 0u64);
+        if nbufs > 0 {
+            let p = alloc::tracked(|| a10::io::ReadBufPool::new(sq.clone(), nbufs, BUF_SIZE)).expect("pool");
+            let evs = events::take();
+            let new = evs.iter().find(|e| e.name == "PoolNew").expect("PoolNew event");
+            pool_group = new.f[0] as u16;
+            pool_base = new.f[3];
+            pool = Some(p);
+        }
         simk::kernel().take_notes();
         events::clear();
         World {
@@ -105,6 +178,14 @@ impl World {
             op_of: BTreeMap::new(),
             held: Vec::new(),
             kinds: kinds.clone(),
+            owned: BTreeMap::new(),
+            track_res,
+            direct,
+            base_id,
+            pool,
+            pool_group,
+            pool_base,
+            nbufs,
         }
     }
 
@@ -120,6 +201,9 @@ impl World {
             "single" => OpObj::Write(Box::pin(base.write(vec![0x5a; 8]))),
             "twostep" => OpObj::SendZc(Box::pin(base.send(vec![0x6b; 8]).zc())),
             "multi" => OpObj::MAccept(Box::pin(base.multishot_accept())),
+            "fdsingle" => OpObj::Accept(Box::pin(base.accept::<a10::net::NoAddress>())),
+            "poolsingle" => OpObj::PoolRead(Box::pin(base.read(self.pool.as_ref().expect("pool").get()))),
+            "poolmulti" => OpObj::PoolMRead(Box::pin(base.multishot_read(self.pool.as_ref().expect("pool").clone()))),
             other => panic!("unknown kind {other}"),
         });
         let evs = events::take();
@@ -133,9 +217,10 @@ impl World {
     fn poll(&mut self, o: u64, w: usize) -> Ret {
         let waker = wakers::waker(w);
         let mut ctx = Context::from_waker(&waker);
-        let is_multi = self.kinds[&o] == "multi";
+        let is_fd = matches!(self.kinds[&o].as_str(), "multi" | "fdsingle");
         let Some(obj) = self.ops.get_mut(&o) else { return Ret::Panic("no such op".into()) };
         let mut held = None;
+        let mut held_buf = None;
         let result = catch_unwind(AssertUnwindSafe(|| {
             alloc::tracked(|| match obj {
                 OpObj::Write(f) => match f.as_mut().poll(&mut ctx) {
@@ -152,9 +237,36 @@ impl World {
                     Poll::Pending => Ret::Pending,
                     Poll::Ready(None) => Ret::End,
                     Poll::Ready(Some(Ok(fd))) => {
-                        use std::os::fd::AsRawFd;
-                        let n = fd.as_fd().map_or(-1, |f| i64::from(f.as_raw_fd()));
+                        let n = fd_number(&fd);
                         held = Some(fd);
+                        Ret::Ready(n)
+                    }
+                    Poll::Ready(Some(Err(e))) => Ret::Err(-i64::from(e.raw_os_error().unwrap_or(0))),
+                },
+                OpObj::Accept(f) => match f.as_mut().poll(&mut ctx) {
+                    Poll::Pending => Ret::Pending,
+                    Poll::Ready(Ok((fd, _))) => {
+                        let n = fd_number(&fd);
+                        held = Some(fd);
+                        Ret::Ready(n)
+                    }
+                    Poll::Ready(Err(e)) => Ret::Err(-i64::from(e.raw_os_error().unwrap_or(0))),
+                },
+                OpObj::PoolRead(f) => match f.as_mut().poll(&mut ctx) {
+                    Poll::Pending => Ret::Pending,
+                    Poll::Ready(Ok(buf)) => {
+                        let n = buf.len() as i64;
+                        held_buf = Some(buf);
+                        Ret::Ready(n)
+                    }
+                    Poll::Ready(Err(e)) => Ret::Err(-i64::from(e.raw_os_error().unwrap_or(0))),
+                },
+                OpObj::PoolMRead(f) => match f.as_mut().poll_next(&mut ctx) {
+                    Poll::Pending => Ret::Pending,
+                    Poll::Ready(None) => Ret::End,
+                    Poll::Ready(Some(Ok(buf))) => {
+                        let n = buf.len() as i64;
+                        held_buf = Some(buf);
                         Ret::Ready(n)
                     }
                     Poll::Ready(Some(Err(e))) => Ret::Err(-i64::from(e.raw_os_error().unwrap_or(0))),
@@ -162,14 +274,50 @@ impl World {
             })
         }));
         drop(waker);
-        if let Some(fd) = held {
-            self.held.push(fd);
-        }
-        match result {
-            Ok(Ret::Ready(n)) if is_multi => Ret::Ready(n - FAKE),
+        let result = match result {
+            Ok(Ret::Ready(n)) if is_fd => Ret::Ready(if self.direct { n } else { n - FAKE }),
             Ok(r) => r,
             Err(p) => Ret::Panic(panic_message(p)),
+        };
+        if let Some(fd) = held {
+            if self.track_res {
+                if let Ret::Ready(v) = &result {
+                    // Kind of the accepted descriptor must be the listener's.
+                    self.owned.insert(*v, ResObj::Fd(fd));
+                }
+            } else {
+                self.held.push(fd);
+            }
         }
+        if let Some(buf) = held_buf {
+            if let Ret::Ready(v) = &result {
+                self.owned.insert(*v, ResObj::Buf(buf));
+            }
+        }
+        result
+    }
+
+    /// Drop the resource with value `v`.
+    fn drop_res(&mut self, v: i64) -> Result<(), String> {
+        let obj = self.owned.remove(&v).ok_or("no such resource")?;
+        catch_unwind(AssertUnwindSafe(|| alloc::tracked(|| drop(obj)))).map_err(panic_message)
+    }
+
+    /// Descriptors (by result value) the simulated kernel considers open.
+    fn open_set(&self) -> BTreeSet<i64> {
+        let k = simk::kernel();
+        if self.direct {
+            k.rings.get(&self.rfd).and_then(|r| r.files.as_ref()).map_or_else(BTreeSet::new, |f| {
+                f.iter().enumerate().filter(|(i, used)| **used && *i as i32 != self.base_id).map(|(i, _)| i as i64).collect()
+            })
+        } else {
+            k.open_fds.iter().filter(|fd| **fd != self.base_id).map(|fd| i64::from(*fd) - FAKE).collect()
+        }
+    }
+
+    /// Buffer ids currently offered to the kernel, in ring order.
+    fn offered(&self) -> Vec<u64> {
+        simk::kernel().offered_buffers(self.rfd, self.pool_group).iter().map(|(bid, _)| u64::from(*bid)).collect()
     }
 
     fn drop_op(&mut self, o: u64) -> Result<(), String> {
@@ -203,7 +351,16 @@ impl World {
                     None => json!({"t": "cancel?", "o": 0, "target": target, "ud": ud}),
                 }
             }
-            abi::OP_CLOSE if ud == 3 => json!({"t": "close", "fd": sqe.fd(), "index": sqe.file_index()}),
+            abi::OP_CLOSE if ud == 3 => {
+                // Regular: fd = descriptor, file_index = 0.  Direct: file_index = slot + 1.
+                let (v, ok) = if self.direct {
+                    (i64::from(sqe.file_index()) - 1, sqe.file_index() != 0 && sqe.fd() == 0)
+                } else {
+                    (i64::from(sqe.fd()) - FAKE, sqe.file_index() == 0)
+                };
+                let skip = sqe.flags() & simk::SQE_CQE_SKIP_SUCCESS != 0;
+                if ok && skip { json!({"t": "close", "o": v}) } else { json!({"t": "close?", "o": v, "fd": sqe.fd(), "index": sqe.file_index(), "flags": sqe.flags()}) }
+            }
             abi::OP_MSG_RING => json!({"t": "msg"}),
             _ => match self.op_of.get(&(ud & !1)) {
                 Some(o) if self.expected_ud(*o) == ud => json!({"t": "op", "o": o}),
@@ -217,11 +374,15 @@ impl World {
     /// for multishot operations.
     fn expected_ud(&self, o: u64) -> u64 {
         let addr = self.addr[&o];
-        if self.kinds[&o] == "multi" { addr | 1 } else { addr }
+        if matches!(self.kinds[&o].as_str(), "multi" | "poolmulti") { addr | 1 } else { addr }
     }
 
     fn sq_tail(&self) -> u32 {
         simk::kernel().rings.get(&self.rfd).map_or(0, |r| r.sq_tail())
+    }
+
+    fn post_params(&self) -> PostParams {
+        PostParams { rfd: self.rfd, direct: self.direct, group: self.pool_group }
     }
 
     /// Tear everything down; returns (leaks, incidents, notes).
@@ -234,6 +395,8 @@ impl World {
                 drop(unsafe { Box::from_raw(self.base) });
                 drop(self.ring.take());
                 drop(std::mem::take(&mut self.held));
+                drop(std::mem::take(&mut self.owned));
+                drop(self.pool.take());
                 drop(self.sq.take());
             })
         }));
@@ -282,6 +445,54 @@ fn observer(ev: &events::Ev) {
     }
 }
 
+#[derive(Clone)]
+struct PostParams {
+    rfd: i32,
+    direct: bool,
+    group: u16,
+}
+
+/// What the simulated kernel posts for the completion `cqe` of the model: for
+/// descriptor kinds it issues the descriptor, for pool kinds it selects the next
+/// provided buffer and fills it.
+fn kernel_result(p: &PostParams, kind: &str, cqe: &Value) -> (i32, u32) {
+    let mut val = cqe[1].as_i64().unwrap_or(0);
+    let mut flags = 0;
+    if cqe[2].as_i64() == Some(1) {
+        flags |= simk::CQE_F_MORE;
+    }
+    if cqe[3].as_i64() == Some(1) {
+        flags |= simk::CQE_F_NOTIF;
+    }
+    if val > 0 {
+        match kind {
+            "multi" | "fdsingle" => {
+                let mut k = simk::kernel();
+                if p.direct {
+                    if let Some(files) = k.rings.get_mut(&p.rfd).and_then(|r| r.files.as_mut()) {
+                        files[val as usize] = true;
+                    }
+                } else {
+                    val += FAKE;
+                    k.open_fds.insert(val as i32);
+                }
+            }
+            "poolsingle" | "poolmulti" => {
+                let data = vec![(val & 0xff) as u8; val as usize];
+                match simk::kernel().take_buffer(p.rfd, p.group, &data) {
+                    Ok((f, n)) => {
+                        flags |= f;
+                        val = i64::from(n);
+                    }
+                    Err(e) => val = i64::from(e),
+                }
+            }
+            _ => {}
+        }
+    }
+    (val as i32, flags)
+}
+
 struct Divergence {
     tag: &'static str,
     field: &'static str,
@@ -327,6 +538,11 @@ fn step(world: &mut World, act: &Value, kernel_access: &mut BTreeSet<u64>) -> Ve
                 div.push(Divergence { tag: "C06", field: "drop panicked", expected: json!(null), observed: json!(e) });
             }
         }
+        "DropRes" => {
+            if let Err(e) = world.drop_res(o as i64) {
+                div.push(Divergence { tag: "harness", field: "drop_res", expected: json!(null), observed: json!(e) });
+            }
+        }
         "Wake" => {
             if let Some(sq) = &world.sq {
                 alloc::tracked(|| sq.wake());
@@ -335,18 +551,8 @@ fn step(world: &mut World, act: &Value, kernel_access: &mut BTreeSet<u64>) -> Ve
         "KPost" => {
             let cqe = &act["cqe"];
             let ud = world.expected_ud(o);
-            let mut val = cqe[1].as_i64().unwrap_or(0);
-            if world.kinds[&o] == "multi" && val > 0 {
-                val += FAKE;
-            }
-            let mut flags = 0;
-            if cqe[2].as_i64() == Some(1) {
-                flags |= simk::CQE_F_MORE;
-            }
-            if cqe[3].as_i64() == Some(1) {
-                flags |= simk::CQE_F_NOTIF;
-            }
-            let ok = simk::kernel().complete(world.rfd, ud, val as i32, flags);
+            let (val, flags) = kernel_result(&world.post_params(), &world.kinds[&o], cqe);
+            let ok = simk::kernel().complete(world.rfd, ud, val, flags);
             if !ok {
                 // The specification says the kernel holds this request; the simulated
                 // kernel never received it (or received it under another user_data).
@@ -385,7 +591,8 @@ fn step(world: &mut World, act: &Value, kernel_access: &mut BTreeSet<u64>) -> Ve
             let block_op = if blocks { o } else { 0 };
             let cqe = act["cqe"].clone();
             let ud = if block_op != 0 { world.expected_ud(block_op) } else { 0 };
-            let is_multi = block_op != 0 && world.kinds[&block_op] == "multi";
+            let block_kind = if block_op != 0 { world.kinds[&block_op].clone() } else { String::new() };
+            let params = world.post_params();
             let rfd = world.rfd;
             let unexpected_block = std::sync::Arc::new(std::sync::atomic::AtomicBool::new(false));
             let ub = unexpected_block.clone();
@@ -402,18 +609,8 @@ fn step(world: &mut World, act: &Value, kernel_access: &mut BTreeSet<u64>) -> Ve
                     return BlockAction::Deadlock;
                 }
                 posted = true;
-                let mut val = cqe[1].as_i64().unwrap_or(0);
-                if is_multi && val > 0 {
-                    val += FAKE;
-                }
-                let mut flags = 0;
-                if cqe[2].as_i64() == Some(1) {
-                    flags |= simk::CQE_F_MORE;
-                }
-                if cqe[3].as_i64() == Some(1) {
-                    flags |= simk::CQE_F_NOTIF;
-                }
-                if simk::kernel().complete(rfd, ud, val as i32, flags) {
+                let (val, flags) = kernel_result(&params, &block_kind, &cqe);
+                if simk::kernel().complete(rfd, ud, val, flags) {
                     BlockAction::Retry
                 } else {
                     BlockAction::Deadlock
@@ -508,7 +705,9 @@ fn step(world: &mut World, act: &Value, kernel_access: &mut BTreeSet<u64>) -> Ve
     let exp_subm = canon_entries(&act["subm"]);
     let obs_subm: Vec<Value> = subm.iter().map(|e| json!({"t": e["t"], "o": e["o"]})).collect();
     if name != "RingPoll" && name != "KPost" && obs_subm != exp_subm {
-        let tag = if name == "Drop" || obs_subm.iter().chain(exp_subm.iter()).any(|e| e["t"].as_str().is_some_and(|t| t.starts_with("cancel"))) {
+        let tag = if name == "DropRes" {
+            "C07"
+        } else if name == "Drop" || obs_subm.iter().chain(exp_subm.iter()).any(|e| e["t"].as_str().is_some_and(|t| t.starts_with("cancel"))) {
             "C06"
         } else {
             "C02"
@@ -551,6 +750,57 @@ fn step(world: &mut World, act: &Value, kernel_access: &mut BTreeSet<u64>) -> Ve
         if let Some(a) = world.addr.get(o) {
             // The address may be reused by a later operation.
             world.op_of.remove(a);
+        }
+    }
+
+    // Descriptors: every close must hit an open descriptor of the right kind.
+    for note in &notes {
+        if let Note::Close { fd, direct, via, ok, .. } = note {
+            if world.track_res && (!*ok || *direct != world.direct) {
+                div.push(Divergence {
+                    tag: "C07",
+                    field: "close of a descriptor that is not open / of the wrong kind",
+                    expected: json!({"direct": world.direct}),
+                    observed: json!({"fd": fd, "direct": direct, "via": via, "ok": ok}),
+                });
+            }
+        }
+    }
+    if world.track_res {
+        if let Some(exp) = act.get("open").and_then(Value::as_array) {
+            let exp: BTreeSet<i64> = exp.iter().filter_map(Value::as_i64).collect();
+            let obs = world.open_set();
+            if exp != obs {
+                div.push(Divergence { tag: "C07", field: "descriptors open in the kernel", expected: json!(exp), observed: json!(obs) });
+            }
+        }
+        if name == "DropRes" && act["k"] == "fd" {
+            let sync = notes.iter().any(|n| matches!(n, Note::Close { via, .. } if *via != "ring"));
+            if sync != act["sync"].as_bool().unwrap_or(false) {
+                div.push(Divergence { tag: "C07", field: "synchronous close", expected: act["sync"].clone(), observed: json!(sync) });
+            }
+        }
+    }
+    // Pool buffers: the kernel's view of the buffer ring.
+    if world.nbufs > 0 {
+        if let Some(exp) = act.get("bring").and_then(Value::as_array) {
+            let exp: Vec<u64> = exp.iter().filter_map(Value::as_u64).collect();
+            let obs = world.offered();
+            if exp != obs {
+                div.push(Divergence { tag: "C08", field: "buffers offered to the kernel", expected: json!(exp), observed: json!(obs) });
+            }
+        }
+        // Every ReadBuf the caller holds lies in its own slot and still has its bytes.
+        let mut slots = BTreeSet::new();
+        for (v, obj) in &world.owned {
+            if let ResObj::Buf(buf) = obj {
+                let ptr = buf.as_slice().as_ptr() as u64;
+                let slot = (ptr.wrapping_sub(world.pool_base)) / u64::from(BUF_SIZE);
+                let intact = buf.len() as i64 == *v && buf.iter().all(|b| *b == (*v & 0xff) as u8);
+                if !slots.insert(slot) || slot >= u64::from(world.nbufs) || !intact {
+                    div.push(Divergence { tag: "C08", field: "ReadBuf contents / slot", expected: json!({"len": v}), observed: json!({"slot": slot, "len": buf.len(), "intact": intact}) });
+                }
+            }
         }
     }
 
@@ -617,6 +867,7 @@ fn main() {
     let mut progress_path = String::new();
     let mut replay_file = String::new();
     let (mut sq_init, mut cq_init) = (0u32, 0u32);
+    let (mut track_res, mut direct, mut nbufs) = (false, false, 0u16);
     let mut i = 1;
     while i < args.len() {
         let v = args.get(i + 1).cloned().unwrap_or_default();
@@ -632,6 +883,9 @@ fn main() {
             "--replay-file" => replay_file = v,
             "--sq-init" => sq_init = v.parse().unwrap(),
             "--cq-init" => cq_init = v.parse().unwrap(),
+            "--track-res" => track_res = v == "1",
+            "--direct" => direct = v == "1",
+            "--nbufs" => nbufs = v.parse().unwrap(),
             other => {
                 eprintln!("unknown argument {other}");
                 std::process::exit(2);
@@ -651,6 +905,9 @@ fn main() {
         cqn = c["cqn"].as_u64().unwrap_or(2) as u32;
         sq_init = c["sq_init"].as_u64().unwrap_or(0) as u32;
         cq_init = c["cq_init"].as_u64().unwrap_or(0) as u32;
+        track_res = c["track_res"].as_u64().unwrap_or(0) == 1;
+        direct = c["direct"].as_u64().unwrap_or(0) == 1;
+        nbufs = c["nbufs"].as_u64().unwrap_or(0) as u16;
         acts = v["path_acts"].as_array().cloned().unwrap_or_default();
         paths = vec![(0..acts.len()).collect()];
     } else {
@@ -687,7 +944,7 @@ fn main() {
     for pi in from..to {
         progress.set(pi as u64, 0);
         let path = &paths[pi];
-        let mut world = World::new(&kinds, sqn, cqn, sq_init, cq_init);
+        let mut world = World::new(&kinds, sqn, cqn, sq_init, cq_init, track_res, direct, nbufs);
         let mut kernel_access = BTreeSet::new();
         let mut first: Option<(usize, Vec<Divergence>)> = None;
         for (si, ai) in path.iter().enumerate() {
